@@ -88,8 +88,13 @@ def gen_case(rng, tier, i):
         r = rng.random()
         k = int(rng.integers(1, K + 1))          # surface number 1..K
         if r < 0.14:
-            ops.append(['set_radius', sval(rng, 1e-1, 1e4), k])
-            plane[k - 1] = False
+            if rng.random() < 0.06 and not plane[k - 1]:
+                # a curved surface made flat for a while (radius = inf is how a flat surface is written): only the radius
+                # changes - conic, coefficients, tilts stay and are there again when a finite radius comes back
+                ops.append(['set_radius', float(rng.choice([math.inf, -math.inf])), k])
+            else:
+                ops.append(['set_radius', sval(rng, 1e-1, 1e4), k])
+                plane[k - 1] = False
         elif r < 0.24:
             cand = [j + 1 for j in range(K) if not plane[j]]
             if cand:
@@ -181,7 +186,11 @@ def gen_case(rng, tier, i):
     tail = []
     if rng.random() < 0.3:
         for _ in range(int(rng.integers(1, 5))):
-            if rng.random() < 0.6:
+            r_ = rng.random()
+            if r_ < 0.2:
+                # a ready-made Surface object (copy of an existing one, flagged as stop) handed to add_surface(new_surface=...)
+                tail.append(['insert_object', int(rng.integers(1, K + 1)), int(rng.integers(1, K + 1))])
+            elif r_ < 0.6:
                 tail.append(['insert', int(rng.integers(1, K + 1)), bool(rng.random() < 0.5)])
             else:
                 tail.append(['remove', int(rng.integers(1, K))])
@@ -480,6 +489,12 @@ def check_case(case, rec):
         rec.event('operations')
         if op[0] == 'insert':
             lens.add_surface(index=min(op[1], len(lens.surface_group.surfaces)), radius=50.0, thickness=1.0, is_stop=op[2])
+        elif op[0] == 'insert_object':
+            nS = len(lens.surface_group.surfaces)
+            src = lens.surface_group.surfaces[max(1, min(op[2], nS - 2))]
+            obj = copy.deepcopy(src)
+            obj.is_stop = True
+            lens.add_surface(new_surface=obj, index=max(1, min(op[1], nS - 1)))
         else:
             if op[1] < len(lens.surface_group.surfaces) - 1:
                 lens.surface_group.remove_surface(op[1])
